@@ -507,6 +507,8 @@ func gen(r *vh.Rand, tier string) []string {
 		out = append(out, fmt.Sprintf("step 1 5 1 1 %d", d), fmt.Sprintf("step 0 7 1 3 %d", d), fmt.Sprintf("step 5 1 1 1 %d", d),
 			fmt.Sprintf("step 4 4 1 2 %d", d), fmt.Sprintf("step 5 21 2 2 %d", d), fmt.Sprintf("step 1 80 8 3 %d", d))
 	}
+	// NewConst around the validation: a negative rate is clamped to "no load" (const.go: if ops < 0 { ops = 0 })
+	out = append(out, "const -1 1 1000000000", "const -7 2 1500000000", "const -1000 1 1000000")
 	for _, k := range []int64{1, 2, 3, 10, 133, 1000, 10000} {
 		out = append(out, fmt.Sprintf("once %d", k))
 	}
